@@ -168,6 +168,7 @@ impl<const LIMBS: usize> ConstantTimeEq for MontyParams<LIMBS> {
             & self.r2.ct_eq(&other.r2)
             & self.r3.ct_eq(&other.r3)
             & self.mod_neg_inv.ct_eq(&other.mod_neg_inv)
+            & self.mod_leading_zeros.ct_eq(&other.mod_leading_zeros)
     }
 }
 
